@@ -116,6 +116,15 @@ def nested_cases(rng):
            % (v, init, v, v, v))
     out.append(["NEW", "EVAL " + mk4, "EVAL (setq p1 (funcall mk4 5))", "EVAL (setq p2 (funcall mk4 7))",
                 "EVAL (list (funcall (car p1)) (funcall (car p2)) (car (cdr p1)) (car (cdr p2)))", "DUMP x y"])
+    # two DIFFERENT symbols with one print name (an interned one and an uninterned one, as a hygienic macro would make), both locally
+    # bound to different values where the lambda is created: each keeps its own value and its own assignments
+    for nm in ["x", "factor"]:
+        mk = ("(setq u (make-symbol \"%s\")) (setq cl (eval (list 'let (list (list '%s 3) (list u 6)) (list 'lambda nil (list 'list '%s u (list 'setq u (list '+ u 1)) '%s)))))"
+              % (nm, nm, nm, nm))
+        out.append(["NEW", "EVAL " + mk, "EVAL (funcall cl)", "EVAL (funcall cl)", "EVAL (let ((%s 100)) (funcall cl))" % nm, "DUMP x y"])
+        mk2 = ("(defmacro with-hidden (v &rest body) (let ((h (make-symbol \"%s\"))) (list 'let (list (list h v) (list '%s 2)) (list 'lambda nil (list 'list h '%s (cons 'progn body))))))"
+               % (nm, nm, nm))
+        out.append(["NEW", "EVAL " + mk2, "EVAL (setq cl (with-hidden 10 (* %s 5)))" % nm, "EVAL (funcall cl)", "EVAL (let ((%s 7)) (funcall cl))" % nm, "DUMP x y"])
     return out
 
 def generate(tier, seed):
